@@ -1,17 +1,35 @@
 //! C03: resource use of one control sequence / one file.
 //! `feed <emu> <w> <h> <hex bytes>` -> elapsed_us  buffer_height  lines_len  max_row_len  errors  peak_rss_kb  sixel_threads
 //!     emu: 0 ansi, 1 ansi+music, 2 avatar, 3 pcboard, 4 ctrla, 5 renegade, 6 ascii, 7 petscii, 8 atascii, 9 viewdata, 10 mode7
-//! `load <ext> <hex bytes>`          -> elapsed_us  width height lines_len ok(1)/err(0) peak_rss_kb
+//! `seq <emu> <w> <h> <prefix hex> <hex bytes>` -> the prefix builds the state (not measured), then the sequence is fed and
+//!     every sixel decode thread it started is joined (decode time and memory belong to the sequence):
+//!     elapsed_us rows_before rows_after cells_before cells_after bh lh cx cy max_row errors rss_growth_kb sixel_bytes hash
+//!     macro_bytes(-1: not observable)  terminal_w terminal_h
+//!     hash = sum over allocated cells (y, x) of ((y * 131 + x + 1) * (code + 1))  mod 2^31-1
+//! `load <ext> <hex bytes>`          -> elapsed_us  width height lines_len ok(1)/err(0) peak_rss_kb cells rss_growth_kb
+//! `sixel <hex bytes>`               -> elapsed_us  ok width height bytes rss_growth_kb      (Sixel::parse_from, in this thread)
+//! `font <hex bytes>`                -> elapsed_us  ok glyphs height rss_growth_kb           (BitFont::from_bytes)
+//! `calib <n>`                       -> elapsed_us of n printed characters on 80x25 (reference for the one-sided time check)
 use crate::util::unhex;
 use crate::Obs;
-use icy_engine::{ansi, ascii, atascii, avatar, ctrla, mode7, pcboard, petscii, renegade, viewdata, Buffer, BufferParser, Caret, TextPane};
+use icy_engine::{ansi, ascii, atascii, avatar, ctrla, mode7, pcboard, petscii, renegade, viewdata, BitFont, Buffer, BufferParser, Caret, Position, Sixel, TextPane};
 use std::path::Path;
 
-fn peak_rss_kb() -> i64 {
+fn status_kb(key: &str) -> i64 {
     std::fs::read_to_string("/proc/self/status")
         .ok()
-        .and_then(|s| s.lines().find(|l| l.starts_with("VmHWM:")).map(|l| l.split_whitespace().nth(1).unwrap_or("0").parse().unwrap_or(0)))
+        .and_then(|s| s.lines().find(|l| l.starts_with(key)).map(|l| l.split_whitespace().nth(1).unwrap_or("0").parse().unwrap_or(0)))
         .unwrap_or(0)
+}
+
+fn peak_rss_kb() -> i64 {
+    status_kb("VmHWM:")
+}
+
+/// forget the peak of earlier cases of this worker (Linux: writing 5 to clear_refs resets VmHWM to the current RSS)
+fn reset_peak() -> i64 {
+    let _ = std::fs::write("/proc/self/clear_refs", "5");
+    status_kb("VmRSS:")
 }
 
 pub fn make_parser(emu: i64) -> Box<dyn BufferParser> {
@@ -32,6 +50,22 @@ pub fn make_parser(emu: i64) -> Box<dyn BufferParser> {
         9 => Box::<viewdata::Parser>::default(),
         _ => Box::<mode7::Parser>::default(),
     }
+}
+
+fn cells(buf: &Buffer) -> i64 {
+    buf.layers[0].lines.iter().map(|l| l.chars.len() as i64).sum()
+}
+
+fn hash(buf: &Buffer) -> i64 {
+    let m: i64 = 2147483647;
+    let mut h: i64 = 0;
+    for (y, l) in buf.layers[0].lines.iter().enumerate() {
+        for (x, c) in l.chars.iter().enumerate() {
+            let k = ((y as i64 % m) * 131 + x as i64 + 1) % m;
+            h = (h + k * ((c.ch as i64 + 1) % m)) % m;
+        }
+    }
+    h
 }
 
 pub fn run(kind: &str, args: &[&str]) -> Option<Obs> {
@@ -57,17 +91,115 @@ pub fn run(kind: &str, args: &[&str]) -> Option<Obs> {
             let max_row = buf.layers[0].lines.iter().map(|l| l.chars.len()).max().unwrap_or(0) as i64;
             Ok(vec![el, buf.get_height() as i64, buf.layers[0].lines.len() as i64, max_row, errors, peak_rss_kb(), buf.sixel_threads.len() as i64])
         }
+        "seq" => {
+            let emu: i64 = args[0].parse().unwrap();
+            let w: i32 = args[1].parse().unwrap();
+            let h: i32 = args[2].parse().unwrap();
+            let prefix = unhex(args[3]);
+            let bytes = unhex(args[4]);
+            let mut buf = Buffer::new((w, h));
+            buf.is_terminal_buffer = true;
+            let mut caret = Caret::default();
+            let mut parser = make_parser(emu);
+            for b in prefix {
+                let _ = parser.print_char(&mut buf, 0, &mut caret, char::from_u32(b as u32).unwrap());
+            }
+            while let Some(hd) = buf.sixel_threads.pop_front() {
+                let _ = hd.join();
+            }
+            let rows0 = buf.layers[0].lines.len() as i64;
+            let cells0 = cells(&buf);
+            let rss0 = reset_peak();
+            let t0 = std::time::Instant::now();
+            let mut errors = 0i64;
+            for b in bytes {
+                let ch = char::from_u32(b as u32).unwrap();
+                if parser.print_char(&mut buf, 0, &mut caret, ch).is_err() {
+                    errors += 1;
+                }
+            }
+            let mut sixel_bytes = 0i64;
+            while let Some(hd) = buf.sixel_threads.pop_front() {
+                if let Ok(Ok(s)) = hd.join() {
+                    sixel_bytes += s.picture_data.len() as i64;
+                }
+            }
+            let el = t0.elapsed().as_micros() as i64;
+            let growth = (peak_rss_kb() - rss0).max(0);
+            let max_row = buf.layers[0].lines.iter().map(|l| l.chars.len()).max().unwrap_or(0) as i64;
+            Ok(vec![
+                el,
+                rows0,
+                buf.layers[0].lines.len() as i64,
+                cells0,
+                cells(&buf),
+                buf.get_height() as i64,
+                buf.layers[0].get_height() as i64,
+                caret.get_position().x as i64,
+                caret.get_position().y as i64,
+                max_row,
+                errors,
+                growth,
+                sixel_bytes,
+                hash(&buf),
+                -1,
+                buf.terminal_state.get_width() as i64,
+                buf.terminal_state.get_height() as i64,
+            ])
+        }
         "load" => {
             let ext = args[0];
             let bytes = unhex(args[1]);
+            let rss0 = reset_peak();
             let t0 = std::time::Instant::now();
             let name = format!("x.{ext}");
             let r = Buffer::from_bytes(Path::new(&name), true, &bytes);
             let el = t0.elapsed().as_micros() as i64;
+            let growth = (peak_rss_kb() - rss0).max(0);
             match r {
-                Ok(b) => Ok(vec![el, b.get_width() as i64, b.get_height() as i64, b.layers.first().map_or(0, |l| l.lines.len()) as i64, 1, peak_rss_kb()]),
-                Err(_) => Ok(vec![el, 0, 0, 0, 0, peak_rss_kb()]),
+                Ok(b) => {
+                    let c: i64 = b.layers.iter().map(|l| l.lines.iter().map(|x| x.chars.len() as i64).sum::<i64>()).sum();
+                    Ok(vec![el, b.get_width() as i64, b.get_height() as i64, b.layers.first().map_or(0, |l| l.lines.len()) as i64, 1, peak_rss_kb(), c, growth])
+                }
+                Err(_) => Ok(vec![el, 0, 0, 0, 0, peak_rss_kb(), 0, growth]),
             }
+        }
+        "sixel" => {
+            let bytes = unhex(args[0]);
+            let s: String = bytes.iter().map(|b| *b as char).collect();
+            let rss0 = reset_peak();
+            let t0 = std::time::Instant::now();
+            let r = Sixel::parse_from(Position::default(), 1, 1, [0, 0, 0, 0], &s);
+            let el = t0.elapsed().as_micros() as i64;
+            let growth = (peak_rss_kb() - rss0).max(0);
+            match r {
+                Ok(s) => Ok(vec![el, 1, s.get_width() as i64, s.get_height() as i64, s.picture_data.len() as i64, growth]),
+                Err(_) => Ok(vec![el, 0, 0, 0, 0, growth]),
+            }
+        }
+        "font" => {
+            let bytes = unhex(args[0]);
+            let rss0 = reset_peak();
+            let t0 = std::time::Instant::now();
+            let r = BitFont::from_bytes("c03", &bytes);
+            let el = t0.elapsed().as_micros() as i64;
+            let growth = (peak_rss_kb() - rss0).max(0);
+            match r {
+                Ok(f) => Ok(vec![el, 1, f.length as i64, f.size.height as i64, growth]),
+                Err(_) => Ok(vec![el, 0, 0, 0, growth]),
+            }
+        }
+        "calib" => {
+            let n: i64 = args[0].parse().unwrap();
+            let mut buf = Buffer::new((80, 25));
+            buf.is_terminal_buffer = true;
+            let mut caret = Caret::default();
+            let mut parser = make_parser(0);
+            let t0 = std::time::Instant::now();
+            for _ in 0..n {
+                let _ = parser.print_char(&mut buf, 0, &mut caret, 'A');
+            }
+            Ok(vec![t0.elapsed().as_micros() as i64, buf.layers[0].lines.len() as i64])
         }
         _ => return None,
     })
